@@ -324,6 +324,64 @@ def decl_case(args):
     return (("decl+splicer_code" if compete else "decl" if form == "list" else "decl-block-string"), lang, name, bodyname, err)
 
 
+# scopes for which Shroud writes no C file of its own accord (a class without wrapped methods, a namespace that holds only classes,
+# a namespace in a namespace): the file-level blocks of such a scope are named in input.rst like those of any other scope
+DORMANT = """\
+library: registry
+cxx_header: registry.hpp
+options:
+  wrap_python: true
+  wrap_lua: true
+declarations:
+- decl: class Handle
+- decl: class Counter
+  declarations:
+  - decl: int next()
+- decl: void release(Handle *h)
+- decl: namespace outer
+  declarations:
+  - decl: class Item
+    declarations:
+    - decl: int size()
+  - decl: namespace deep
+    declarations:
+    - decl: class Leaf
+"""
+DORMANT_SCOPES = ["class.Handle", "namespace.outer", "namespace.outer::deep", "namespace.outer::deep.class.Leaf", "class.Counter"]
+FILE_BLOCKS = ["C_declarations", "CXX_declarations", "C_definitions", "CXX_definitions"]
+
+
+def dormant_case(args):
+    """User code for a file-level block of a scope whose file is otherwise not written: it is carried (the file appears), once,
+    and every block of the unchanged description keeps its contents."""
+    workdir, ydict, way, name, base_blocks = args
+    body = ["static int user_marker = 7;"]
+    y, files, argv = supply(way, "c", name, body, ydict)
+    out, r = gen(workdir, y, files, argv)
+    err = None
+    if r.status != "ok":
+        err = "shroud failed: %s %s" % (r.exc, r.msg)
+    else:
+        got = tree_blocks(out)
+        hits = [k for k in got if k[0] == "c" and k[3] == name]
+        if not hits:
+            err = "user code for %s is in no generated file (the scope has nothing else to write)" % name
+        elif len(hits) > 1:
+            err = "block %s emitted %d times: %s" % (name, len(hits), sorted(k[1] for k in hits))
+        elif norm(got[hits[0]]) != norm(body):
+            err = "block %s in %s holds %r, user supplied %r" % (name, hits[0][1], got[hits[0]], body)
+        else:
+            for k in sorted(base_blocks):
+                if k not in got:
+                    err = "block %s of %s disappears when %s is supplied" % (k[3], k[1], name)
+                    break
+                if k[3] != name and squash(got[k]) != squash(base_blocks[k]):
+                    err = "unrelated block %s in %s changed: %r -> %r" % (k[3], k[1], base_blocks[k][:4], got[k][:4])
+                    break
+    shutil.rmtree(workdir, ignore_errors=True)
+    return ("dormant " + way, "c", name, "one", err)
+
+
 def two_ways_case(args):
     """file + splicer_code naming different blocks of one language: both must survive."""
     workdir, ydict, lang, name1, name2, base_blocks = args
@@ -624,6 +682,18 @@ def run(ctx):
                 i += 1
                 mjobs.append((os.path.join(basedir, "w%d" % i),) + t[1:] + (way, order))
     res += isolate.pmap(several_files_case, mjobs, W)
+    ydorm = yaml.safe_load(DORMANT)
+    outd, rd = gen(os.path.join(basedir, "base_dormant"), ydorm, {}, [])
+    if rd.status != "ok":
+        raise RuntimeError("baseline generation failed: %s" % rd.msg)
+    base_dorm = tree_blocks(outd)
+    qjobs = []
+    for sc in DORMANT_SCOPES:
+        for blk in FILE_BLOCKS:
+            for way in ways:
+                i += 1
+                qjobs.append((os.path.join(basedir, "w%d" % i), ydorm, way, sc + "." + blk, base_dorm))
+    res += isolate.pmap(dormant_case, qjobs, W)
     sjobs = []
     for lang in ("c", "f", "py", "lua"):
         ln = [n for l, n in names if l == lang]
@@ -631,7 +701,7 @@ def run(ctx):
             i += 1
             sjobs.append((os.path.join(basedir, "w%d" % i), ydict, lang, a, base_blocks))
     res += isolate.pmap(same_block_case, sjobs, W)
-    ctx.part("emitter", runs=len(res), bodies=bodies, ways=ways + ["decl", "decl+splicer_code", "file+splicer_code", "file+splicer_code same block", "several files (yaml list / command line, both orders, with an empty third)"])
+    ctx.part("emitter", runs=len(res), bodies=bodies, ways=ways + ["decl", "decl+splicer_code", "file+splicer_code", "file+splicer_code same block", "file-level blocks of scopes without a file of their own", "several files (yaml list / command line, both orders, with an empty third)"])
     ctx.count(states=len(res), transitions=len(res), validated=len(res))
     ctx.nontrivial_n(len(res))
     for way, lang, name, bodyname, err in res:
